@@ -56,7 +56,7 @@ def encode_string(s: str) -> bytes:
     return bytes(s, 'utf-8')
 
 
-entity_re = re.compile(r'&(#?)(x?)(\d{1,5}|\w{1,8});')
+entity_re = re.compile(r'&(#?)([xX]?)(\d{1,5}|\w{1,8});')
 
 module_cache = {}
 
@@ -199,14 +199,15 @@ def substitute_entity(
     if match.group(1) == "#":
         if match.group(2) == '':
             return chr(int(ent))
-        elif match.group(2) == 'x':
+        elif match.group(2) in ('x', 'X'):
             return chr(int('0x' + ent, 16))
         else:
             # FIXME: This should be unreachable, so we can
             #        try raising an AssertionError instead
             return ''
     else:
-        cp = n2cp.get(ent)
+        # (the HTML table lacks the fifth predefined entity of XML)
+        cp = n2cp.get(ent) or (39 if ent == 'apos' else None)
 
         if cp:
             return chr(cp)
